@@ -200,7 +200,7 @@ def sizeStmt : Nat → Nat → SStmt → Nat
   | _, _, .assign _ t e _ => sizeExprTo e t + 2
   | _, _, .print items _ => 3 + sizeItems items + 1
   | _, _, .data items _ => 1 + 2 * items.length + 3
-  | _, _, .read vars _ => 1 + 3 * vars.length + 2 + vars.length + 1 + 3 * vars.length
+  | _, _, .read vars _ => if vars.isEmpty then 4 else 11 * vars.length
   | fd, sd, .ifBlock c thn elifs hasElse els _ =>
     sizeExpr c + 1 + sizeStmt fd sd thn + 1 + sizeElifs fd sd elifs +
       (if hasElse then 1 + sizeStmt fd sd els else 0) + 1
@@ -267,12 +267,11 @@ def compileStmt (lay : List Nat) : String → Nat → Nat → Nat → SStmt → 
     [(.beginArgs, p)] ++ items.flatMap (fun (v, q) => [(.loadA v, q), (.pushByVal, q)]) ++
       [(.pushStack, p), (.builtInData, p), (.popStack, p)]
   | sfx, fd, sd, _, .read vars p =>
-    [(.beginArgs, p)] ++
-      vars.flatMap (fun (x, t, q) => [(.varPath x t, q), (.copyVarPathToA, q), (.pushByRef, q)]) ++
-      [(.pushStack, p), (.builtInRead, p)] ++
-      (vars.zipIdx).map (fun ((_, _, q), i) => (.enqueue i, q)) ++
-      [(.popStack, p)] ++
-      vars.flatMap (fun (x, t, q) => [(.dequeue, q), (.varPath x t, q), (.copyAToVarPath, q)])
+    -- `READ a, b` is generated as `READ a : READ b` (one built-in call per variable)
+    if vars.isEmpty then [(.beginArgs, p), (.pushStack, p), (.builtInRead, p), (.popStack, p)]
+    else vars.flatMap (fun (x, t, q) =>
+      [(.beginArgs, p), (.varPath x t, q), (.copyVarPathToA, q), (.pushByRef, q), (.pushStack, p), (.builtInRead, p),
+       (.enqueue 0, q), (.popStack, p), (.dequeue, q), (.varPath x t, q), (.copyAToVarPath, q)])
   | sfx, fd, sd, off, .ifBlock c thn elifs hasElse els p =>
     let nc := sizeExpr c
     let thnOff := off + nc + 1
